@@ -28,6 +28,7 @@ import ClipperVerif.Driver.AelRings
 import ClipperVerif.Driver.C06Joins
 import ClipperVerif.Driver.TrimHorz
 import ClipperVerif.Driver.AelOpenRings
+import ClipperVerif.Driver.HorzJoins
 namespace Clipper.Driver
 open Clipper.Proto
 
@@ -61,7 +62,8 @@ def handlers : List (String → Option (P String)) := [
   AelRings.handle,
   C06Joins.handle,
   TrimHorz.handle,
-  AelOpenRings.handle
+  AelOpenRings.handle,
+  HorzJoins.handle
 ]
 
 def dispatch1 (cmd : String) : Option (P String) :=
